@@ -53,10 +53,23 @@ impl C01 {
     fn check(&self, cx: &mut Cx, lib: &GdsLibrary, in_limit: bool, via_file: bool, desc: &str) {
         cx.eval();
         let path = cx.tmp("c01.gds");
+        let stale = cx.n % 2 == 0;
+        if via_file && stale {
+            cx.count("saved_over_existing_longer_file");
+        }
         let written = guard(|| -> Result<Vec<u8>, String> {
             if via_file {
+                // history dimension: every other case saves over an existing, much longer file
+                if stale {
+                    std::fs::write(&path, vec![0xA5u8; 300_000]).map_err(|e| e.to_string())?;
+                }
                 lib.save(&path).map_err(|e| format!("{:?}", e))?;
-                std::fs::read(&path).map_err(|e| e.to_string())
+                let on_disk = std::fs::read(&path).map_err(|e| e.to_string())?;
+                let mut buf = Vec::new();
+                if lib.write(&mut buf).is_ok() && buf != on_disk {
+                    return Err(format!("SAVE-DIFFERS-FROM-WRITE file={} bytes, write()={} bytes", on_disk.len(), buf.len()));
+                }
+                Ok(on_disk)
             } else {
                 let mut buf = Vec::new();
                 lib.write(&mut buf).map_err(|e| format!("{:?}", e))?;
@@ -66,6 +79,11 @@ impl C01 {
         let buf = match written {
             Err(c) => {
                 cx.violation(&format!("write-panic|{}|{}", c.site(), c.norm_msg()), json!({"case": desc, "panic": c.msg, "at": format!("{}:{}", c.file, c.line)}));
+                return;
+            }
+            Ok(Err(e)) if e.starts_with("SAVE-DIFFERS-FROM-WRITE") => {
+                let _ = std::fs::remove_file(&path);
+                cx.violation("save-file-differs-from-write", json!({"case": desc, "what": e, "saved_over_existing_file": stale}));
                 return;
             }
             Ok(Err(e)) => {
